@@ -278,6 +278,17 @@ def stars_extra(kind=SMG):
     for t in ((2, None, 0, 1, 3, None), (2, None, 0, 1, None, 3), (None, 2, 0, 1, None, 3), (3, None, 1, 0, None, 2),
               (None, 3, 1, 0, 2, None)):
         out.append(mk(kind, az, ab, bstereo=[("PlanarBond", t, 0)]))
+    # axis / planar bond with a lone pair on one end (iminium-like X(Y)C=N-Z: 0=C, 1=N) and on both ends, placeholder at every
+    # position it can take, both parities of the axis
+    im = [(0, "C"), (1, "N"), (2, "F"), (3, "Cl"), (4, "Br")]
+    ib = [(0, 1), (0, 2), (0, 3), (1, 4)]
+    for t in ((2, 3, 0, 1, 4, None), (2, 3, 0, 1, None, 4), (4, None, 1, 0, 2, 3), (None, 4, 1, 0, 3, 2)):
+        for p in (1, -1):
+            out.append(mk(kind, im, ib, bstereo=[("AtropBond", t, p)]))
+        out.append(mk(kind, im, ib, bstereo=[("PlanarBond", t, 0)]))
+    for t in ((2, None, 0, 1, 3, None), (None, 2, 0, 1, 3, None)):
+        for p in (1, -1):
+            out.append(mk(kind, az, ab, bstereo=[("AtropBond", t, p)]))
     return out
 
 
